@@ -42,8 +42,16 @@ Record env := mkEnv {
   umask         : N;
   root_writable : bool;            (* the output directory itself accepts new entries from this user *)
   ancestors     : path -> list path;  (* the directories strictly between the output directory and the path, outermost first *)
-  child         : path -> path     (* p/<file name of the packaged resource>: where shutil.copy lands when p is a directory *)
+  child         : path -> path;    (* p/<file name of the packaged resource>: where shutil.copy lands when p is a directory *)
+  links         : path -> option path  (* symbolic links in the tree: p is a link whose destination is the path d (inside or
+                                          outside the output directory; dangling when d has no entry).  No run creates, removes
+                                          or retargets a link (every operation below follows links), so they are part of the shape.
+                                          One level: destinations are not links themselves. *)
 }.
+
+(* what exists()/is_dir()/stat()/chmod()/open() operate on: the destination of a link, the path itself otherwise *)
+Definition resolve (e : env) (p : path) : path := match links e p with Some d => d | None => p end.
+Definition is_symlink (e : env) (p : path) : bool := match links e p with Some _ => true | None => false end.
 
 Definition bind (x : fs * result) (k : fs -> fs * result) : fs * result :=
   match snd x with
